@@ -1135,7 +1135,11 @@ func coerceGen(dir string) func(r *rand.Rand, tier string) []Case {
 					}
 				}
 				if r.Intn(10) == 0 {
-					out = append(out, sx.L("9", sx.L("b", "1"))) // undeclared field
+					if r.Intn(2) == 0 {
+						out = append(out, sx.L("9", "nil")) // undeclared field holding null
+					} else {
+						out = append(out, sx.L("9", sx.L("b", "1"))) // undeclared field
+					}
 				}
 				return out
 			case "enum":
@@ -1187,6 +1191,25 @@ func coerceGen(dir string) func(r *rand.Rand, tier string) []Case {
 					}
 					add(wt, v, "nested", "one-level-short")
 				}
+			}
+		}
+		// an undeclared key holding null (alone wrong in an otherwise well-formed object), at the top, in a
+		// nested object and in a list member, in every request route
+		{
+			i3 := sx.L("i", kindNames[0], "3")
+			t40, t41 := mustParse(input40), mustParse(input41)
+			for _, tv := range [][2]sx.S{
+				{t41, sx.L("m", sx.L("1", i3), sx.L("9", "nil"))},
+				{t41, sx.L("m", sx.L("9", "nil"))},
+				{t40, sx.L("m", sx.L("1", i3), sx.L("9", "nil"))},
+				{t40, sx.L("m", sx.L("1", i3), sx.L("4", sx.L("m", sx.L("1", i3), sx.L("9", "nil"))))},
+				{sx.L("l", t41), sx.L("l", sx.L("m", sx.L("1", i3)), sx.L("m", sx.L("9", "nil")))},
+				{sx.L("nn", sx.L("l", sx.L("nn", t40))), sx.L("l", sx.L("m", sx.L("1", i3), sx.L("9", "nil")))},
+			} {
+				for n%reqEvery != reqEvery-1 {
+					n++
+				}
+				add(tv[0], tv[1], "nested", "undeclared-null-key")
 			}
 		}
 		return cases
